@@ -66,7 +66,15 @@ def cases(tier, rng, schema, feats):
     for khl in ([0, 1, 2, 63, 64, 127, 128, 254, 255] if tier == "quick" else range(256)):
         for certl in ([0, 1, 300, 1023, 1024] if tier == "quick" else [0, 1, 2, 100, 300, 512, 1000, 1023, 1024]):
             sigl = rng.choice([0, 1, 70, 71, 72])
-            regs.append((rng.below(256), rng.bytes(65), rng.bytes(khl), rng.bytes(certl), rng.bytes(sigl)))
+            regs.append((rng.below(256), (b"\x04" + rng.bytes(64)) if rng.below(2) else rng.bytes(65), rng.bytes(khl), rng.bytes(certl), rng.bytes(sigl)))
+    # certificates that look like DER (SEQUENCE, one/two-byte long-form length) with a declared length below, at and above the actual one;
+    # every register response whose key is 0x04||x||y is also built through register::Response::new by the harness
+    for hdr, decl, actual in ((b"\x30\x82", 300, 320), (b"\x30\x82", 316, 320), (b"\x30\x82", 317, 320), (b"\x30\x82", 0, 40), (b"\x30\x82", 1020, 1024),
+                              (b"\x30\x82", 65535, 500), (b"\x30\x81", 100, 130), (b"\x30\x83", 1, 200), (b"\x30\x80", 0, 64)):
+        nl = {b"\x30\x81": 1, b"\x30\x82": 2, b"\x30\x83": 3, b"\x30\x80": 0}[hdr]
+        cert = hdr + (decl & (256 ** nl - 1) if nl else 0).to_bytes(nl, "big")
+        cert = cert + rng.bytes(max(0, actual - len(cert)))
+        regs.append((5, b"\x04" + rng.bytes(64), rng.bytes(64), cert, rng.bytes(71)))
     # shapes that put part boundaries exactly on menu capacities
     regs += [(5, b"\x04" * 65, b"\x01" * 4, b"\x02" * 0, b"\x03" * 0), (5, b"\x04" * 65, b"\x01" * 70, b"\x02" * 182, b"\x03" * 2), (5, b"", b"", b"", b"")]
     for r in regs:
